@@ -39,7 +39,10 @@ DEFECTS = ['unbal', 'date', 'amount', 'balassert', 'assertline', 'account', 'com
 DCLASS = dict(unbal=K_UNBAL, date=K_DATE, amount=K_AMOUNT, balassert=K_ASSERT, assertline=K_ASSERT,
               account=K_ACCOUNT, commodity=K_COMMODITY, payee=K_PAYEE, tag=K_TAG)
 A_ACCT, A_COMM, A_PAYEE, A_TAG, A_BAL = ['u', 'acct', K_ACCOUNT], ['u', 'comm', K_COMMODITY], ['u', 'payee', K_PAYEE], ['u', 'tag', K_TAG], ['b', K_ASSERT]
-TYPO_ACCOUNTS = ['Expenses:Fod', 'Expences:Food', 'Expenses:Rnet', 'Assets:Csh', 'Assets:Cash:Till', 'expenses:food', 'Liabilities:Crad', 'Income:Salery']
+# undeclared: misspelt children below a declared parent, below a declared leaf, below an undeclared
+# parent; the undeclared parents of declared children; other spellings
+TYPO_ACCOUNTS = ['Expenses:Fod', 'Expenses:Fodo', 'Expenses:Rnet', 'Assets:Csh', 'Assets:Chequing', 'Assets:Cash:Till', 'Expenses:Food:Lunch',
+                 'Liabilities:Crad', 'Income:Salery', 'Liabilities', 'Income', 'Liabilities:Card:Fees', 'Expences:Food', 'expenses:food', 'Equity']
 TYPO_PAYEES = ['Shopp', 'Land lord', 'Employr', 'RailCo', 'shop']
 TYPO_TAGS = ['Knwon', 'Knownn', 'Receipt', 'Project']
 TYPO_COMMS = ['XYZ', 'EURO', 'USD', 'eur']
@@ -67,7 +70,9 @@ def doc_reaction(o, defect):
         return 'quiet' if o['permissive'] else 'error'
     return 'error'
 
-ACCOUNTS = ['Expenses:Food', 'Expenses:Rent', 'Expenses:Travel', 'Assets:Cash', 'Liabilities:Card', 'Income:Salary']
+# declared accounts; `Expenses` and `Assets` are non-leaf (summary) accounts that are declared and posted to
+# themselves, `Liabilities` and `Income` are parents that stay undeclared although a child is declared
+ACCOUNTS = ['Expenses:Food', 'Expenses:Rent', 'Expenses:Travel', 'Assets:Cash', 'Liabilities:Card', 'Income:Salary', 'Expenses', 'Assets']
 BANK = 'Assets:Bank'
 PAYEES = ['Shop', 'Landlord', 'Employer', 'Rail Co']
 BAD_DATES = ['2020/13/45', '2020/02/30', '2021/02/29', '20x0/01/01', '2020/00/10', '2020/01/00', '2020/01/32',
@@ -167,7 +172,13 @@ class Builder:
     def declarations(self):
         rng = self.rng
         es = []
-        for a in ACCOUNTS + [BANK]:
+        order = ACCOUNTS + [BANK]
+        if rng.random() < 0.5:
+            order = sorted(order)              # parents before their children
+        elif rng.random() < 0.5:
+            order = list(order)
+            rng.shuffle(order)
+        for a in order:
             lines = [('account ' + a, ['i', [], 1, []])]
             if rng.random() < 0.3:
                 lines.append(('    note about %s' % a.replace(':', ' '), ['s']))
@@ -526,9 +537,8 @@ def build_case(rng, idx, nfault=None, opts=None, multi=None):
     c.roots = []
     for r in range(nroots):
         root = b.new_file()
-        # journal_t::read ends with clear_xdata(): the running account totals that balance
-        # assertions consult start from zero again in every -f file
-        b.bank = 0
+        # (the running account totals that balance assertions consult continue across the -f
+        # files of one session, in option order, included files inline: b.bank is not reset)
         if nfault is not None:
             if r == 0:
                 # split a large count between the root and one included file now and then
@@ -982,8 +992,6 @@ def run(ctx, n_override=None):
         res.extra['generated_tables']['Gen/CheckingStyle.v'] = [l for l in gen.split('\n') if l.startswith('Definition') or 'precedence' in l]
     except OSError:
         pass
-    res.notes.append('side observation (C09, not judged here): journal_t::read ends with clear_xdata(), so a balance assertion in a '
-                     'second -f file does not see the postings of the first file; the generator resets its running balance per -f file')
     return res
 
 
